@@ -16,7 +16,7 @@ from ..rng import digest
 from .. import observe as ob
 
 PROP = "C12"
-RUNS = {"quick": 8000, "thorough": 500000}
+RUNS = {"quick": 8000, "thorough": 220000}
 WALL = {"quick": 280, "thorough": 3500}
 RULE = ("one run = GFA1 document with links over all orientation pairs / self-links / hairpins and CIGARs "
         "over M,I,D,P,=,X,H, scheduled delivery, complement-duplicate faults, paths in both directions; "
